@@ -76,6 +76,32 @@ pub fn tree_entries(t: &Value, out: &mut Vec<Value>) {
     tree_entries(&a[4], out);
 }
 
+/// Is the outcome of a retain whose predicate panicked the one C20 demands for the calls the code made?
+/// `calls`: the prefixes the predicate saw (the last one is the call that panicked).
+fn retain_panic_order_free(row: &Value, calls: &Value, exp_calls: &Value, pre_tree: &Value, post_tree: &Value) -> bool {
+    let (Some(calls), Some(exp_calls), Some(keep)) = (calls.as_array(), exp_calls.as_array(), row["e"]["keep"].as_array()) else {
+        return false;
+    };
+    if calls.len() != exp_calls.len() || calls.is_empty() {
+        return false; // the panic is injected at the k-th call
+    }
+    let (mut pre, mut post) = (vec![], vec![]);
+    tree_entries(pre_tree, &mut pre);
+    tree_entries(post_tree, &mut post);
+    // every call shows a distinct stored entry in its stored representation
+    for (i, c) in calls.iter().enumerate() {
+        if !pre.iter().any(|e| e[0] == c["n"] && e[1] == c["h"]) || calls[..i].iter().any(|d| d["n"] == c["n"]) {
+            return false;
+        }
+    }
+    let before = &calls[..calls.len() - 1];
+    let want: Vec<Value> = pre
+        .into_iter()
+        .filter(|e| !(before.iter().any(|c| c["n"] == e[0]) && !keep.iter().any(|k| *k == e[0])))
+        .collect();
+    want == post
+}
+
 /// C15 on an observed tree: every child strictly longer than, covered by, and on the side selected by the
 /// next bit of its parent; the root is the zero-length prefix
 pub fn tree_wf(t: &Value) -> Option<String> {
@@ -166,8 +192,12 @@ pub fn compare(row: &Value, ctx: &Ctx, st: &Step, is_set: bool, dr: i64, pre_tre
         exp_ret = sort(&exp_ret);
         got_ret = sort(&got_ret);
     }
-    if act == "Find" && row["e"]["kind"] == "find" {
-        // find(q) must address the right entries; at which position it reports itself is left open
+    let qlen = row["e"]["q"]["n"].as_array().map(|a| a.len());
+    let plen = row["e"]["p"]["n"].as_array().map(|a| a.len());
+    if act == "Find" && row["e"]["kind"] == "find" && qlen < plen {
+        // find(q) for a q ABOVE the view's own position must address the right entries; at which position it
+        // reports itself is left open.  For q at or below the view's position it is view_at(q) (C11: prefix()
+        // is q, value() the value stored at q, sides split by the next bit) and is compared in full.
         let proj = |v: &Value| -> Value {
             match v.get(0) {
                 Some(x) if x.is_object() => json!([{"ok": x["ok"], "it": x["d"]["it"]}]),
@@ -177,8 +207,14 @@ pub fn compare(row: &Value, ctx: &Ctx, st: &Step, is_set: bool, dr: i64, pre_tre
         exp_ret = proj(&exp_ret);
         got_ret = proj(&got_ret);
     }
+    // C20 fixes what a retain whose predicate panicked leaves behind relative to the calls that preceded the
+    // panic ("minus those the predicate had already rejected"), not the order of those calls: where the code
+    // asked in another order than the specification's machine, the outcome is judged on the observed calls.
+    let order_free = act == "Retain" && exp_pan && st.pan && got_ret != exp_ret
+        && retain_panic_order_free(row, &got_ret, &exp_ret, pre_tree, &st.tree);
     let st_ret = &got_ret;
-    if st.pan != exp_pan {
+    if order_free {
+    } else if st.pan != exp_pan {
         mm.push(("pan".into(), json!(exp_pan), json!(st.pan)));
     } else if !exp_pan && *st_ret != exp_ret {
         mm.push(("ret".into(), exp_ret, st_ret.clone()));
@@ -186,7 +222,7 @@ pub fn compare(row: &Value, ctx: &Ctx, st: &Step, is_set: bool, dr: i64, pre_tre
         mm.push(("ret".into(), exp_ret, st_ret.clone()));
     }
     let exp_tree = ctx.norm_tree(&row["t"]);
-    if st.tree != exp_tree {
+    if st.tree != exp_tree && !order_free {
         let (mut ee, mut eg) = (vec![], vec![]);
         tree_entries(&exp_tree, &mut ee);
         tree_entries(&st.tree, &mut eg);
@@ -205,7 +241,11 @@ pub fn compare(row: &Value, ctx: &Ctx, st: &Step, is_set: bool, dr: i64, pre_tre
         mm.push(("wf".into(), json!("well-formed trie"), json!(d)));
     }
     let from_tree = ctx.norm_tree(&row["f"]);
-    if shape(&exp_tree) == shape(&from_tree) && shape(&st.tree) != shape(pre_tree) {
+    // (`keeps`: the event is one of those C15 says never change the shape - remove_keep_tree, value-only
+    // operations through entries and views, observers.  A remove()/retain() that tidies left-over nodes of an
+    // earlier remove_keep_tree while removing nothing is NOT such an event: any well-formed shape is legal there.)
+    let keeps = row["keeps"].as_bool().unwrap_or(false);
+    if keeps && shape(&exp_tree) == shape(&from_tree) && shape(&st.tree) != shape(pre_tree) {
         mm.push(("shape_changed".into(), shape(pre_tree), shape(&st.tree)));
     }
     let x = &row["x"];
